@@ -13,7 +13,7 @@ RULE = ("configurations: matrix sizes n=2..5 x batch shapes (),(1,),(3,),(63,),(
         "(regular, singular, rank-deficient), polynomials of degree 1-3 built from chosen roots (simple, double, triple, complex pairs, any "
         "leading coefficient, leading zeros), vector pairs on {-2..2}^n and random with every axis form; plus every kernel call made by the "
         "repository's tests. Each judged batch position is compared with exact rational det/adjugate/rank; non-trivial = matrix or vector "
-        "with at least two entries not in {0,1,-1}; distinct by operand digest.")
+        "with at least two entries not in {0,1,-1}; distinct by operand digest. A raising is_multiple call is judged for numeric finite arrays that broadcast and a valid axis (axis 0, -2, middle axes and tuples of axes are part of the workload).")
 SHARDS = (8, 16)
 REQUIRED = ["det", "adjugate", "inv", "null_space", "orth", "roots", "is_multiple", "hat_matrix", "matmul", "outer"]
 ASSUMPTIONS = ["Fraction arithmetic exact", "numpy.roots / einsum used as independent references are correct", "LAPACK singular-matrix behaviour not judged",
